@@ -21,6 +21,7 @@ from chameleon.namespaces import TAL_NS as TAL
 from chameleon.namespaces import XML_NS
 from chameleon.namespaces import XMLNS_NS
 from chameleon.program import ElementProgram
+from chameleon.tokenize import Token
 from chameleon.utils import ImportableMarker
 from chameleon.utils import decode_htmlentities
 
@@ -708,7 +709,9 @@ class MacroProgram(ElementProgram):
 
     def visit_processing_instruction(self, node):
         if node['name'] != 'python':
-            text = '<?' + node['name'] + node['text'] + '?>'
+            name = node['name']
+            text = Token('<?', name.pos - 2, name.source, name.filename) \
+                + name + node['text'] + '?>'
             return self.visit_text(text)
 
         return nodes.CodeBlock(node['text'])
